@@ -410,6 +410,15 @@ func (g *Gen) Target() *GConf {
 	return c
 }
 
+func indexOf(l []string, s string) int {
+	for i, x := range l {
+		if x == s {
+			return i
+		}
+	}
+	return 0
+}
+
 // DedupLines is dedupLines for other packages.
 func DedupLines(lines []string, ios bool) []string { return dedupLines(lines, ios) }
 
@@ -546,10 +555,39 @@ func (g *Gen) Device(t *GConf, nedits int, unmanaged bool) (*GConf, []string) {
 			if len(d.ACLs) > 0 {
 				a := d.ACLs[g.Rng.Intn(len(d.ACLs))]
 				i := g.Rng.Intn(len(a.Lines))
+				// Prefer a line that already logs: its variant may change.
+				type pos struct {
+					a *GACL
+					i int
+				}
+				var logging []pos
+				for _, x := range d.ACLs {
+					for k, l := range x.Lines {
+						if strings.Contains(l, " log") {
+							logging = append(logging, pos{x, k})
+						}
+					}
+				}
+				if len(logging) > 0 && g.Rng.Intn(3) != 0 {
+					p := logging[g.Rng.Intn(len(logging))]
+					a, i = p.a, p.i
+				}
 				if !strings.Contains(a.Lines[i], " log") {
 					a.Lines[i] += " log"
+				} else if k := strings.Index(a.Lines[i], " log"); g.Rng.Intn(2) == 0 {
+					a.Lines[i] = a.Lines[i][:k]
 				} else {
-					a.Lines[i] = a.Lines[i][:strings.Index(a.Lines[i], " log")]
+					// Another variant of the log attribute.
+					base, old := a.Lines[i][:k], a.Lines[i][k:]
+					vs := []string{" log", " log-input"}
+					if g.Kind == "asa" {
+						vs = []string{" log", " log 4", " log 7 interval 100", " log disable"}
+					}
+					v := vs[g.Rng.Intn(len(vs))]
+					if v == old {
+						v = vs[(g.Rng.Intn(len(vs)-1)+1+indexOf(vs, old))%len(vs)]
+					}
+					a.Lines[i] = base + v
 				}
 				ops = append(ops, "acl-log-changed")
 			}
